@@ -16,7 +16,7 @@
    PARTIAL: quoted values with escapes, white space and folds around "=" and the separators, empty
    list items, the white-space-then-token terminator, and the converse direction (accepted => of
    that shape) are not proved: render/parse oracle + correspondence (chunked too). *)
-From Sipsp Require Import Harness Misc HdrSpec TokSpec UListSpec UHListSpec TokEoi.
+From Sipsp Require Import Harness Misc HdrSpec TokSpec UListSpec UHListSpec TokEoi TokItem.
 Theorem C17_character_set : forall up c, tok_allowed up c = true <-> In c (allowed_set up).
 Proof. exact tok_allowed_spec. Qed.
 Theorem C17_bad_byte_in_name_rejected_there : forall f (rest : list byte) i s c,
@@ -119,7 +119,100 @@ Example C17_hdr_list_example :
   let f := 2 ^ bPOptInputEnd in
   Forall (h_ok f) [([120], [49]); ([121;121], [50])] /\ tf_ie (tp_decode (N.lor f (N.lor (2 ^ bPOptParamAmpSep) (2 ^ bPOptTokURIHdr)))) = true.
 Proof. cbv zeta. split; [|reflexivity]. repeat constructor; try discriminate; try reflexivity. Qed.
+(* ---- one list item in general: name [LWS] [ "=" [LWS] [ token | quoted string ] ] [LWS] and what ends it ----------------------------- *)
+(* the text after the name, the side conditions, and the fields reported (closed forms) *)
+Theorem C17_item_shapes_mean : forall flags v,
+  vbody v = match v with
+            | VMissing => []
+            | VEmpty w1 => w1 ++ [61]
+            | VTok w1 w2 v0 value => (w1 ++ [61]) ++ (w2 ++ v0 :: value)
+            | VQuoted w1 w2 q => (w1 ++ [61]) ++ (w2 ++ 34 :: q ++ [34])
+            end /\
+  (vok flags v <-> match v with
+                   | VMissing => True
+                   | VEmpty w1 => gap flags w1
+                   | VTok w1 w2 v0 value => gap flags w1 /\ gap flags w2 /\ plain flags v0 /\ Forall (plain flags) value
+                   | VQuoted w1 w2 q => gap flags w1 /\ gap flags w2 /\ qcontent q
+                   end).
+Proof. intros. split; destruct v; reflexivity. Qed.
+Theorem C17_item_fields_mean : forall k a v en j st,
+  exp_item k a v en j st
+  = mktokparam
+      match v with
+      | VMissing => mkpf k (a - k)
+      | VEmpty w1 => match en with ESep => mkpf k (j - k) | _ => match w1 with [] => mkpf k (a + 1 - k) | _ => mkpf k (a - k) end end
+      | VTok w1 w2 v0 value => mkpf k (vstart a w1 w2 + nnat (length (v0 :: value)) - k)
+      | VQuoted w1 w2 q => mkpf k (vstart a w1 w2 + nnat (length q) + 2 - k)
+      end
+      (mkpf k (a - k))
+      match v with
+      | VMissing => pf0
+      | VEmpty _ => match en with EEoi => pf0 | _ => mkpf j 0 end
+      | VTok w1 w2 v0 value => mkpf (vstart a w1 w2) (nnat (length (v0 :: value)))
+      | VQuoted w1 w2 q => mkpf (vstart a w1 w2) (nnat (length q) + 2)
+      end st /\
+  (forall w1 w2, vstart a w1 w2 = a + nnat (length w1) + 1 + nnat (length w2)).
+Proof. intros. split; [destruct v; reflexivity|reflexivity]. Qed.
+(* white space: blanks, or blanks CR LF blanks (a fold), are crossed completely *)
+Theorem C17_white_space_runs : forall flags,
+  (forall sp, sp <> [] -> HdrSpec.spaces sp -> gap flags sp) /\
+  (forall sp sp', HdrSpec.spaces sp -> HdrSpec.spaces sp' -> sp' <> [] -> gap flags (sp ++ CR :: LF :: sp')) /\ gap flags [].
+Proof.
+  intros flags. split; [intros sp H1 H2; right; apply wsrun_blanks; assumption|].
+  split; [intros sp sp' H1 H2 H3; right; apply wsrun_fold; assumption|left; reflexivity].
+Qed.
+(* quoted-string content: any byte but DQUOTE, backslash, CR, LF, DEL and control characters; backslash + any byte but CR / LF *)
+Theorem C17_quoted_content_means : forall q, qcontent q <->
+  match q with
+  | [] => True
+  | c :: q' => (qchar c /\ qcontent q') \/ (c = 92 /\ match q' with d :: q'' => is_crlf d = false /\ qcontent q'' | [] => False end)
+  end.
+Proof.
+  intros q. split.
+  - intros H. destruct H as [|c q Hc Hq|d q Hd Hq]; [exact I|left; auto|right; auto].
+  - destruct q as [|c q']; [constructor|]. intros [[Hc Hq]|[-> H]]; [constructor; assumption|].
+    destruct q' as [|d q'']; [contradiction|]. destruct H. constructor; assumption.
+Qed.
+Theorem C17_item_ended_by_terminator : forall flags (junk : list byte) n0 (name : list byte) v,
+  plain flags n0 -> Forall (plain flags) name -> vok flags v ->
+  forall (w : list byte) t (r : list byte), gap flags w -> is_term_c flags t = true ->
+  let k := nnat (length junk) in let a := k + nnat (length (n0 :: name)) in let e := a + nnat (length (vbody v)) + nnat (length w) in
+  parse_tokparam flags (junk ++ ((n0 :: name) ++ vbody v) ++ w ++ t :: r) k tokparam0
+  = Done e EOk (exp_item k a v ETerm e PFIN).
+Proof. exact item_term. Qed.
+Theorem C17_item_then_next_item : forall flags (junk : list byte) n0 (name : list byte) v,
+  plain flags n0 -> Forall (plain flags) name -> vok flags v ->
+  forall (w w4 : list byte) c (r : list byte), gap flags w -> gap flags w4 -> plain flags c ->
+  let k := nnat (length junk) in let a := k + nnat (length (n0 :: name)) in let e := a + nnat (length (vbody v)) + nnat (length w) in
+  parse_tokparam flags (junk ++ ((n0 :: name) ++ vbody v) ++ w ++ tf_sep (tp_decode flags) :: w4 ++ c :: r) k tokparam0
+  = Done (e + 1 + nnat (length w4)) EMoreValues (exp_item k a v ESep e PInitNxtVal).
+Proof. exact item_more. Qed.
+Theorem C17_item_ended_by_end_of_input : forall flags (junk : list byte) n0 (name : list byte) v,
+  plain flags n0 -> Forall (plain flags) name -> vok flags v ->
+  forall sp : list byte, HdrSpec.spaces sp -> tf_ie (tp_decode flags) = true ->
+  let k := nnat (length junk) in let a := k + nnat (length (n0 :: name)) in
+  parse_tokparam flags (junk ++ ((n0 :: name) ++ vbody v) ++ sp) k tokparam0
+  = Done (a + nnat (length (vbody v)) + nnat (length sp)) EEOH (exp_item k a v EEoi 0 PFIN).
+Proof. exact item_eoi. Qed.
+(* satisfiable: ab, a fold, =, a blank, the quoted string x-backslash-dquote-y, a blank, the separator, a blank, c *)
+Example C17_item_example :
+  let v := VQuoted [32;13;10;32] [32] [120;92;34;121] in
+  plain 0 97 /\ Forall (plain 0) [98] /\ vok 0 v /\ gap 0 [32] /\ plain 0 99 /\
+  parse_tokparam 0 ([97;98] ++ vbody v ++ [32] ++ 59 :: [32] ++ [99]) 0 tokparam0
+  = Done 17 EMoreValues (mktokparam (mkpf 0 14) (mkpf 0 2) (mkpf 8 6) PInitNxtVal).
+Proof.
+  cbv zeta. pose proof (C17_white_space_runs 0) as (G1 & G2 & G3).
+  split; [repeat split; reflexivity|]. split; [repeat constructor; reflexivity|].
+  split.
+  - split; [apply (G2 [32] [32]); repeat constructor; discriminate|].
+    split; [apply G1; [discriminate|repeat constructor]|].
+    apply qc_char; [repeat split; reflexivity|]. apply qc_esc; [reflexivity|]. apply qc_char; [repeat split; reflexivity|]. constructor.
+  - split; [apply G1; [discriminate|repeat constructor]|]. split; [repeat split; reflexivity|]. vm_compute. reflexivity.
+Qed.
 Print Assumptions C17_param_then_next_param_at_any_offset.
+Print Assumptions C17_item_ended_by_terminator.
+Print Assumptions C17_item_then_next_item.
+Print Assumptions C17_item_ended_by_end_of_input.
 Print Assumptions C17_uri_header_list.
 Print Assumptions C17_uri_parameter_list_to_end_of_input.
 Print Assumptions C17_uri_header_list_to_end_of_input.
